@@ -316,6 +316,44 @@ def fam_multi(rng, pid):
     return b.prog(cfg)
 
 
+def fam_multim(rng, pid):
+    """several in-memory queues on one worker (the configurations spec/VarMQ.tla models: conformance-eligible): all three
+    strategies, concurrent producers on different queues, Purge / Close of one queue, Pause/Resume around a preloaded backlog"""
+    b = Builder(rng, 'multim', pid)
+    nq = rng.choice([2, 2, 3])
+    kinds = [rng.choice(['fifo', 'fifo', 'prio']) for _ in range(nq)]
+    cfg = {'wk': rng.choice(WKS), 'conc': rng.choice([1, 1, 2]), 'queues': kinds, 'strategy': rng.choice(['rr', 'rr', 'max', 'min']),
+           'errs_reader': rng.random() < 0.5}
+    paused = rng.random() < 0.6
+    ops = [{'op': 'Pause'}] if paused else []
+    adds = []
+    for q in range(nq):
+        for _ in range(rng.choice([0, 1, 2, 3])):
+            adds.append(b.add(q, PRIOS if kinds[q] == 'prio' else None))
+    rng.shuffle(adds)
+    ops += adds
+    if rng.random() < 0.5:
+        ops += [{'op': 'NumPending'}] + [{'op': 'QPending', 'q': q} for q in range(nq)]
+    if paused:
+        ops += [{'op': 'Resume'}]
+    ops += [{'op': 'WUF'}, {'op': 'NumPending'}]
+    b.client('c1', ops)
+    for i in range(rng.choice([0, 1, 1, 2])):
+        q = rng.randrange(nq)
+        ops = [b.add(q, PRIOS if kinds[q] == 'prio' else None) for _ in range(rng.choice([1, 2, 3]))]
+        if rng.random() < 0.4:
+            ops.append({'op': 'WUF'})
+        b.client('c%d' % (i + 2), ops)
+    r = rng.random()
+    if r < 0.25:
+        b.client('x', [{'op': 'Purge', 'q': rng.randrange(nq)}])
+    elif r < 0.35:
+        b.client('x', [{'op': 'QClose', 'q': rng.randrange(nq)}, {'op': 'QPending', 'q': 0}])
+    elif r < 0.5 and not paused:
+        b.client('x', [{'op': 'PauseAndWait'}, {'op': 'NumProcessing'}, {'op': 'Resume'}])
+    return b.prog(cfg)
+
+
 RAW_KINDS = ['undecodable', 'badstatus', 'foreign', 'closed']
 
 
@@ -470,7 +508,7 @@ def life_exhaustive(maxlen, seed, prefix):
     return out
 
 
-FAMILIES = {'life': fam_life, 'distbind': fam_distbind, 'bind2': fam_bind2, 'tune': fam_tune, 'adapter': fam_adapter, 'dist': fam_dist, 'basic': fam_basic, 'barrier': fam_barrier, 'ctl': fam_ctl, 'cancel': fam_cancel, 'batch': fam_batch,
+FAMILIES = {'multim': fam_multim, 'life': fam_life, 'distbind': fam_distbind, 'bind2': fam_bind2, 'tune': fam_tune, 'adapter': fam_adapter, 'dist': fam_dist, 'basic': fam_basic, 'barrier': fam_barrier, 'ctl': fam_ctl, 'cancel': fam_cancel, 'batch': fam_batch,
             'handle': fam_handle, 'pool': fam_pool, 'multi': fam_multi}
 
 
